@@ -25,6 +25,7 @@ import core
 import findings
 import gen
 import impl
+import loadtol
 
 PID = "C18"
 TRUSTED = [
@@ -635,27 +636,40 @@ def leg_c(ctx, rng, pool):
                 msg = f"wrong: the call returned {str(got)[:160]} but the coordinate dictionary gives {str(want)[:160]}"
         if c.get("scaling") and r.get("out") == "ok":
             sp = c["scaling"]
-            scaling.setdefault((sp["fmt"], sp["nnz"], json.dumps(sp["slice"])), {})[sp["extent"]] = (r.get("elapsed", 0.0), sc)
+            scaling.setdefault((sp["fmt"], sp["nnz"], json.dumps(sp["slice"])), {})[sp["extent"]] = (r.get("cpu") or 0.0, sc, c)
         if msg:
             info = dict(sc, formats=[G.fmt_tag(a) for a in c.get("arrays", [])], shapes=[a["shape"] for a in c.get("arrays", [])],
                         outcome=oc, etype=r.get("etype"), np=r.get("np"), np_msg=r.get("np_msg"), origin=r.get("origin"))
             fid = findings.classify(PID, c["op"], info, msg)
             fails_by_id[fid or "UNCLASSIFIED"] += 1
             ctx.fail("C", c["op"], info, msg, finding=fid)
-    # scaling: same stored entries, same slice, extents 2**12 / 2**24 / 2**40 — the time may not follow the extent.  Generous: a call on the
-    # longer axis may take 0.5 s + 200 x the time on the 2**12 axis (30 microseconds typically; 1.2 s at 2**24 when every position is searched)
-    table = {}
+    # scaling: same stored entries, same slice, extents 2**12 / 2**24 / 2**40 — the CPU time of the call (time.process_time in the worker) may not
+    # follow the extent.  Generous: a call on the longer axis may take 200 x the CPU time on the 2**12 axis + 5 units of the reference computation of
+    # this run (30 microseconds typically; 1.2 s at 2**24 when every position of the slice is searched).  A miss is re-measured alone before it counts.
+    unit = (pool.ref or {}).get("cpu") or loadtol.NOMINAL_UNIT
+    table, rescued_scaling = {}, []
+
+    def alone(case_):
+        c2 = {k: v for k, v in case_.items() if k != "id"}
+        return pool.run([c2])[0]
+
     for key, by_ext in scaling.items():
         small = by_ext.get(2 ** 12)
-        table["/".join(key)] = {str(e): round(t, 6) for e, (t, _) in sorted(by_ext.items())}
+        table["/".join(key)] = {str(e): round(t, 6) for e, (t, _, _) in sorted(by_ext.items())}
         if small is None:
             continue
-        for ext, (t, sc_) in by_ext.items():
-            if ext > 2 ** 12 and t > 0.5 + 200 * small[0]:
+        for ext, (t, sc_, c_) in by_ext.items():
+            if ext > 2 ** 12 and t > 200 * small[0] + 5 * unit:
+                rs, rb = alone(small[2]), alone(c_)
+                ts, tb = rs.get("cpu") or 0.0, rb.get("cpu") if rb.get("out") == "ok" else None
+                if tb is not None and tb <= 200 * ts + 5 * unit:
+                    rescued_scaling.append({"key": "/".join(key), "extent": ext, "cpu_first": t, "cpu_alone": tb})
+                    continue
                 info = dict(sc_, formats=[G.fmt_tag(a) for a in sc_.get("arrays", [])], shapes=[a["shape"] for a in sc_.get("arrays", [])], outcome="slow", etype=None, np="none", origin=None)
-                m_ = (f"scaling: {key[0]} x[{key[2]}] with {key[1]} stored entr(y/ies) took {t:.4f} s on an axis of {ext} positions and {small[0]:.6f} s on an axis of 4096: "
-                      "the time follows the extent of the axis, not the stored entries")
+                m_ = (f"scaling: {key[0]} x[{key[2]}] with {key[1]} stored entr(y/ies) took {t:.4f} s of CPU time on an axis of {ext} positions ({tb} s when re-run alone) and "
+                      f"{small[0]:.6f} s on an axis of 4096 (reference computation of this run: {unit:.4f} s): the time follows the extent of the axis, not the stored entries")
                 ctx.fail("C", "xlong[idx]:scaling", info, m_, finding=findings.classify(PID, "xlong[idx]:scaling", info, m_))
+    ctx.notes["scaling_rescued_by_solitary_retry"] = rescued_scaling
     ctx.notes["scaling"] = table
     ctx.notes["error_stream"] = {k: dict(sorted(v.items())) for k, v in stats.items()}
     ctx.notes["error_stream"].update({"cases": len(cases), "hangs": hangs, "crashes": crashes, "failures_by_finding": dict(fails_by_id),
@@ -719,14 +733,17 @@ def run(ctx):
     ctx.trusted = TRUSTED
     ctx.assumptions = [
         "NumPy's accept/reject verdict on the same dense arguments is the specification; value agreement is the business of C01-C10",
-        "a call is taken to hang when it has not answered within 25 s + 0.2 ms per element/extent unit (explicit probes: 10 s after a warm-up call), "
-        "confirmed by a retry in a fresh process with three times the deadline",
+        "a call is taken to hang when it has not answered within 25 s + 0.2 ms per element/extent unit (explicit probes: 10 s / 30 s after a warm-up call), "
+        "stretched by the slowdown of the moment (contention seen by a reference computation, load average per CPU), AND has missed three times that limit again "
+        "when retried alone in a fresh process after all other workers have finished; the scaling probe compares CPU time of the worker, re-measured alone on a miss",
         "termination of kernels outside the Lean loop models is observed on the enumerated small shapes, not proved",
     ]
     core.prove(ctx, PID, uses=["normalizeAxisInt", "checkIndexInt", "bcastOk", "bcastDim", "maskHeuristicLhs", "maskHeuristicRhs", "maskSlicesDef", "gcxsCtorChecks"])
     rng = gen.rng_for(ctx.seed, PID)
     pool = c18_pool.Pool(nworkers=int(os.environ.get("VERIF_C18_WORKERS", "8")), log=core.log)
     try:
+        pool.calibrate()
+        core.log(f"C18: reference computation {pool.ref}, slowdown {loadtol.slowdown(pool.ref):.2f}, load/cpu {loadtol.load_per_cpu():.2f}")
         leg_a(ctx, gen.rng_for(ctx.seed, PID + ":kernel"), pool)
         leg_c(ctx, rng, pool)
         timing(ctx, pool)
